@@ -9,6 +9,12 @@ import (
 	"github.com/gopcua/opcua/uasc"
 )
 
+// supported range of the publishing interval, in milliseconds
+const (
+	minPublishingInterval = 1.0
+	maxPublishingInterval = 24 * 60 * 60 * 1000.0
+)
+
 // SubscriptionService implements the Subscription Service Set.
 //
 // https://reference.opcfoundation.org/Core/Part4/v105/docs/5.13
@@ -55,6 +61,17 @@ func (s *SubscriptionService) CreateSubscription(sc *uasc.SecureChannel, r ua.Re
 		return nil, err
 	}
 
+	// the publishing interval drives a time.Ticker in Subscription.run: revise it into the
+	// supported range (NaN, zero, fractions of a millisecond and negative values become the
+	// minimum, values that would overflow time.Duration the maximum).
+	interval := req.RequestedPublishingInterval
+	if !(interval >= minPublishingInterval) {
+		interval = minPublishingInterval
+	}
+	if interval > maxPublishingInterval {
+		interval = maxPublishingInterval
+	}
+
 	s.Mu.Lock()
 	defer s.Mu.Unlock()
 
@@ -74,7 +91,7 @@ func (s *SubscriptionService) CreateSubscription(sc *uasc.SecureChannel, r ua.Re
 	sub.Session = s.srv.Session(r.Header())
 	sub.Channel = sc
 	sub.ID = newsubid
-	sub.RevisedPublishingInterval = req.RequestedPublishingInterval
+	sub.RevisedPublishingInterval = interval
 	sub.RevisedLifetimeCount = req.RequestedLifetimeCount
 	sub.RevisedMaxKeepAliveCount = req.RequestedMaxKeepAliveCount
 
@@ -92,7 +109,7 @@ func (s *SubscriptionService) CreateSubscription(sc *uasc.SecureChannel, r ua.Re
 			AdditionalHeader:   ua.NewExtensionObject(nil),
 		},
 		SubscriptionID:            uint32(newsubid),
-		RevisedPublishingInterval: req.RequestedPublishingInterval,
+		RevisedPublishingInterval: interval,
 		RevisedLifetimeCount:      req.RequestedLifetimeCount,
 		RevisedMaxKeepAliveCount:  req.RequestedMaxKeepAliveCount,
 	}
